@@ -84,27 +84,38 @@ Proof.
     do 6 (try destruct p as [p|p|]); try reflexivity; discriminate E.
 Qed.
 
+(* the left column before the unit-period rule: a mnemonic that ends with a period is not
+   padded (unreachable for conformant mnemonics, which contain no period) *)
+Definition left_base (lw : nat) (it : hitem) : list N :=
+  if endswith [ch_dot] (i_orig it) then i_orig it else ljust lw 32 (i_orig it).
 (* the blank the writer inserts before a unit that starts with a period *)
 Definition dot_gap (lw : nat) (it : hitem) : list N :=
   match i_unit it with
   | [] => []
-  | c :: _ => if c =? 46 then (if endswith [32] (ljust lw 32 (i_orig it)) then [] else [32]) else []
+  | c :: _ => if c =? 46 then (if endswith [32] (left_base lw it) then [] else [32]) else []
   end.
 (* first padding: left-justification of the mnemonic, plus that blank *)
 Definition pad1 (lw : nat) (it : hitem) : list N :=
-  repeat_ch 32 (lw - List.length (i_orig it)) ++ dot_gap lw it.
+  (if endswith [ch_dot] (i_orig it) then [] else repeat_ch 32 (lw - List.length (i_orig it)))
+  ++ dot_gap lw it.
 (* second padding: fills the middle column *)
 Definition pad2 (fstr : list N -> list N) (o : item_order) (mw : nat) (it : hitem) : list N :=
   repeat_ch 32 (mw - List.length (i_unit it) - List.length (rhs_text fstr o it)).
 
+Lemma left_base_eq lw it :
+  left_base lw it =
+  i_orig it ++ (if endswith [ch_dot] (i_orig it) then [] else repeat_ch 32 (lw - List.length (i_orig it))).
+Proof.
+  unfold left_base. destruct (endswith [ch_dot] (i_orig it)); [rewrite app_nil_r; reflexivity|reflexivity].
+Qed.
+
 Lemma left_col_eq lw it : left_col lw it = i_orig it ++ pad1 lw it.
 Proof.
-  unfold left_col, pad1, dot_gap. destruct (i_unit it) as [|c u].
+  unfold left_col, pad1, dot_gap. fold (left_base lw it). rewrite app_assoc, <- left_base_eq.
+  destruct (i_unit it) as [|c u].
   - rewrite app_nil_r. reflexivity.
   - rewrite (match46 c u). destruct (c =? 46).
-    + destruct (endswith [32] (ljust lw 32 (i_orig it))).
-      * rewrite app_nil_r. reflexivity.
-      * unfold ljust. rewrite app_assoc. reflexivity.
+    + destruct (endswith [32] (left_base lw it)); [rewrite app_nil_r|]; reflexivity.
     + rewrite app_nil_r. reflexivity.
 Qed.
 
@@ -116,9 +127,12 @@ Proof. apply forallb_app. Qed.
 
 Lemma blanks_pad1 lw it : blanks (pad1 lw it) = true.
 Proof.
-  unfold pad1. rewrite blanks_app, blanks_repeat. unfold dot_gap.
+  unfold pad1. rewrite blanks_app.
+  assert (H1 : blanks (if endswith [ch_dot] (i_orig it) then [] else repeat_ch 32 (lw - List.length (i_orig it))) = true)
+    by (destruct (endswith [ch_dot] (i_orig it)); [reflexivity|apply blanks_repeat]).
+  rewrite H1. unfold dot_gap.
   destruct (i_unit it) as [|c u]; [reflexivity|]. destruct (c =? 46); [|reflexivity].
-  destruct (endswith _ _); reflexivity.
+  destruct (endswith [32] (left_base lw it)); reflexivity.
 Qed.
 
 Lemma blanks_pad2 fstr o mw it : blanks (pad2 fstr o mw it) = true.
